@@ -74,7 +74,7 @@ func c14Sizes(tier string) (schemaUnits, jsonUnits, enumUnits, regexUnits, per, 
 	if tier == "thorough" {
 		return 1400, 500, 300, 100, 40, 36
 	}
-	return 112, 48, 32, 8, 24, 24
+	return 448, 192, 128, 32, 24, 24
 }
 
 // ---- separators and trailers -----------------------------------------------------------
